@@ -23,7 +23,8 @@ RULE = ('matrices from random sparse count matrices with 2..8 states (irreducibl
         'threshold-free cases. Non-trivial: >= 3 states and reducible / periodic / extremal support, '
         'or ergodic with a zero entry.'
         ' Added classes: one ndarray refilled in place between calls, Fortran/transposed/strided layouts (same verdicts), non-stochastic matrices whose row-sum errors cancel (transposes, symmetrised, mass moved between rows), nearly symmetric and rare-state matrices.'
-        ' Later: a never-left state entered with probability 1e-9 (not a transition matrix), metastable lines with self transitions everywhere, read-only matrices.')
+        ' Later: a never-left state entered with probability 1e-9 (not a transition matrix), metastable lines with self transitions everywhere, read-only matrices.'
+        ' Fifth/sixth batch: row sums inside the accepted 1e-8, doubly stochastic non-ergodic matrices.')
 TRUSTED = ['np.linalg.matrix_power in floating point (decisions compared only away from the thresholds)',
            'the boolean closedness test class_closed used in mask_largest_closed_thm is an executable '
            'definition (edges leaving the class), not related to a Prop-level notion by a theorem']
